@@ -27,7 +27,7 @@ FILES = {
  "C01": "Models/Recover.v (on Tbls.v, Stages.v), Proofs/RecoverProofs.v; harness props/c01.go",
  "C02": "Models/Tbls.v, EntryTbls.v, Proofs/TblsProofs.v (on ShareProofs, Lagrange); harness props/c02.go",
  "C03": "Models/Tbls.v, Proofs/TblsProofs.v; harness props/c02.go",
- "C04": "Models/Vss.v, Dkg.v, EntryVss.v, Proofs/VssProofs.v, DkgProofs.v; harness props/c05.go (library level), props/c04net.go (n real pdkg over the network double)",
+ "C04": "Models/Vss.v, Dkg.v, EntryVss.v, Proofs/VssProofs.v, DkgProofs.v, DkgLive.v; harness props/c05.go (library level), props/c04net.go (n real pdkg over the network double)",
  "C05": "Models/Vss.v, Dkg.v, Proofs/DkgProofs.v; harness props/c05.go",
  "C06": "Models/Evm.v, Bn.v, BnPairing.v, Proofs/EvmProofs.v; harness props/c06.go (real EVM precompiles of go-ethereum)",
  "C07": "Models/Stages.v, Proofs/StagesProofs.v; harness props/c07.go",
